@@ -63,7 +63,7 @@ class Job:
                  checks=("--pointer-check", "--bounds-check"), solver=None, paths=None,
                  timeout=600, mem_gb=6, object_bits=None, functions=None, min_obligations=1,
                  extra_cc=None, replay=True, canaries=1, slice_formula=False, extra_cbmc=None,
-                 nondet_static=False, depth=None, malloc_may_fail=False):
+                 nondet_static=False, depth=None, malloc_may_fail=False, unwinding_assertions=True):
         self.name = name; self.harness = harness; self.entry = entry
         self.defines = dict(defines or {}); self.enforce = enforce; self.replace = list(replace or [])
         self.loop_contracts = loop_contracts; self.overlay = overlay or []
@@ -75,6 +75,9 @@ class Job:
         self.replay = replay; self.canaries = canaries; self.slice_formula = slice_formula
         self.extra_cbmc = list(extra_cbmc or []); self.nondet_static = nondet_static
         self.depth = depth; self.malloc_may_fail = malloc_may_fail
+        # False: paths exceeding the unwinding bound are cut (used only for "must block" obligations under a frozen
+        # environment, where the statement after the call has to be unreachable)
+        self.unwinding_assertions = unwinding_assertions
         self.route = "dfcc" if enforce else "harness"
 
 
@@ -289,7 +292,9 @@ def job_build(job, specdir, scratch):
 
 
 def cbmc_cmd(job, gb, trace=False):
-    cmd = ["cbmc", gb, "--no-standard-checks", "--json-ui", "--unwinding-assertions", "--drop-unused-functions"]
+    cmd = ["cbmc", gb, "--no-standard-checks", "--json-ui", "--drop-unused-functions"]
+    if job.unwinding_assertions:
+        cmd += ["--unwinding-assertions"]
     if not job.malloc_may_fail:
         cmd += ["--no-malloc-may-fail"]
     cmd += job.checks
